@@ -148,7 +148,17 @@ func fieldOffset(st *types.Struct, i int) int {
 func rootKey(t types.Type) string {
 	s := types.TypeString(t, func(p *types.Package) string { return p.Name() })
 	r := strings.NewReplacer("*", "P_", "[]", "S_", "[", "_", "]", "_", ".", "_", " ", "", "{", "_", "}", "_", ";", "_", "(", "_", ")", "_", ",", "_", "/", "_")
-	return r.Replace(s)
+	s = r.Replace(s)
+	// struct tags and other punctuation of unnamed types
+	var sb strings.Builder
+	for _, ch := range s {
+		if ch == '_' || ch >= '0' && ch <= '9' || ch >= 'a' && ch <= 'z' || ch >= 'A' && ch <= 'Z' {
+			sb.WriteRune(ch)
+		} else {
+			fmt.Fprintf(&sb, "_%x_", ch)
+		}
+	}
+	return sb.String()
 }
 
 type unsupported string
@@ -162,6 +172,8 @@ type Val struct {
 	// Pointers: heap family root type and leaf base.
 	Root types.Type
 	Base int
+	// Interfaces made from a pointer at a known site: the static type of that pointer (for modifies pointee(x)).
+	Dyn types.Type
 	// Closures / static function values.
 	Fn       interface{} // *ssa.Function
 	Bindings []Val
